@@ -158,9 +158,7 @@ def natvalid_base(country: str):
     c = reg.countries()[country]
     b = bases.bban(c, "distinct")
     if country in nat.COUNTRIES:
-        if country in ("CZ", "SK"):
-            return _solve_czsk(country, b)
-        return nat.with_check(country, b)
+        return nat.with_check(country, b) or _solve_czsk(country, b)
     return None
 
 
